@@ -93,7 +93,10 @@ func (s *Set[T]) forceSetupOrdered() {
 	fun.Invariant.Ok(s.list == nil)
 	s.list = &List[T]{}
 	for item := range s.hash {
-		s.list.PushBack(item)
+		// index the list element so that Delete can unlink it
+		elem := NewElement(item)
+		s.list.Back().Append(elem)
+		s.hash[item] = elem
 	}
 }
 
